@@ -317,10 +317,11 @@ from the source at the start of every run: moving a `bookie`/`booked` acquisitio
 `write_*()` connection acquisition, or nesting them the other way round, makes this fail). -/
 theorem extracted_programs_ordered : ∀ p ∈ programs, ordered [] p.ops = true := by decide
 
-/-- the table is not empty and contains programs that really nest all three kinds -/
+/-- the table is not vacuous: at least ten programs, and some program takes all three kinds -/
 theorem extracted_programs_nontrivial :
     programs.length ≥ 10 ∧
-    (programs.any fun p => p.ops.take 3 == [.acq .conn 0 .W, .acq .bookie 0 .W, .rel .bookie]) = true := by
+    (programs.any fun p => p.ops.contains (.acq .conn 0 .W) && p.ops.contains (.acq .bookie 0 .W) &&
+      p.ops.contains (.acq .booked 0 .W)) = true := by
   decide
 
 /-- **Deadlock freedom of the agent's writers, as extracted.** Any number of concurrent tasks, each
